@@ -84,3 +84,15 @@ package utils
 //@   loop 1 invariant result.params != nil
 //@   unclaimed index@5 "strings.Split of the constant \"charset=US-ASCII\" on \"=\" has two parts"
 //@   unclaimed index@4 "strings.Split of the constant \"charset=US-ASCII\" on \"=\" has two parts"
+
+// <title> and <meta> are forwarded unchanged (whatwg "the title element", "standard metadata names"): the
+// FIRST title / description / generator found wins and is stored as found, every author is kept as found, and
+// each piece goes to the field of its own name.
+//@ func GetHtmlMetadata
+//@   props C14
+//@   modifies anything
+//@   assert after title#1: prev == ""
+//@   assert after description#1: prev == "" && name == "description" && description == content
+//@   assert after generator#1: prev == "" && name == "generator" && generator == content
+//@   call append#2 assert[author-as-found] name == "author" && len(arg1) == 1 && arg1[0] == content
+//@   ensures[fields] result.Title == title && result.Description == description && result.Generator == generator && result.Keywords == keywords && result.Authors == authors && result.Attachments == attachments
